@@ -46,7 +46,7 @@ det, first = {}, {}
 p = os.path.join(V, "seeded/detect.log")
 if os.path.exists(p):
     for l in open(p):
-        m = re.match(r"(C\d+_(?:r[23456]_)?\d+) tier=(\w+) rc=(\d+) violations=(\d+) ::\s?(.*)", l.strip())
+        m = re.match(r"(C\d+_(?:r[234567]_)?\d+) tier=(\w+) rc=(\d+) violations=(\d+) ::\s?(.*)", l.strip())
         if m:
             det[m.group(1)] = m.groups()      # last run wins
             first.setdefault(m.group(1), m.groups())
